@@ -304,6 +304,11 @@ def gen_cases(quick):
     for n in range(0, 6):
         yield "partial.report", part([(100 + k, bytes([k, 255 - k])) for k in range(n)])
     yield "partial.report", part([(5, b"\x01")])
+    # repeated and overlapping positions: the message carries every change, in order
+    for a, b in itertools.product([(300, b"\x11\x22"), (300, b"\xa5\x5a"), (301, b"\x33\x44"), (7, b"\x00\x00")], repeat=2):
+        yield "partial.report", part([a, b])
+        yield "partial.report", part([a, b, (300, b"\x7e\x01")])
+        yield "partial.report", part([a, (400, b"\x01\x02"), b])
     for seq in B8:
         yield "partial.ack", (lambda seq=seq: check_statq(seq))
     # pack commands
